@@ -21,6 +21,9 @@ with elems := ENil | ECons (e : elem) (es : elems).
 Inductive space := SLeaf (fl : bool) | SNode (sps : spaces)
 with spaces := SNil | SCons (sp : space) (sps : spaces).
 
+(* the tensor object of a leaf element *)
+Definition leaf_id (e : elem) : nat := match e with Leaf i => i | Node _ => 0%nat end.
+
 Section Space.
 Context {T : Type} `{Num T}.
 (* memory layout (c_contiguous, f_contiguous) and "dtype in _BLAS_DTYPES" of each
